@@ -468,8 +468,9 @@ func c02Operands(c *core.Ctx) {
 		parsed = append(parsed, awk.MustParse(p, nil))
 	}
 	names := []string{"FS", "RS", "OFS", "ORS", "CONVFMT", "OFMT", "SUBSEP", "NF", "NR", "FNR", "ARGC", "RSTART", "RLENGTH", "INPUTMODE", "OUTPUTMODE", "FILENAME", "RT", "x", "arr", "ARGV", "getline", "1x"}
-	vals := []string{"[[", "(", "*", "\\xff", "", "a", "ab", "1e30", "-1", "1e6", "2.5", "csv", "xyz", "csv separator=ab", "csv separator=# comment=#", "tsv header", "%d", "%s%s", "%*d", "%", "\\", "a\\nb"}
+	vals := []string{"[[", "(", "*", "\\xff", "", "a", "ab", "1e30", "-1", "1e6", "2.5", "csv", "xyz", "csv separator=ab", "csv separator=# comment=#", "csv separator=\\xff", "csv separator=\\\"", "csv separator=\\n", "csv separator=\\x00", "tsv separator=\\t comment=\\t", "csv comment=,", "tsv header", "%d", "%s%s", "%*d", "%", "\\", "a\\nb"}
 	os.WriteFile(filepath.Join(c02Dir, "data"), []byte("l1 x,y\nl2\n\nl4,4\n"), 0o644)
+	os.WriteFile(filepath.Join(c02Dir, "data2"), []byte("ab\xff\n\"q\",\x00\t#\n\xff\xff,\"\n"), 0o644)
 	for _, name := range names {
 		for _, val := range vals {
 			if !c.Mine() || c.Expired() {
@@ -478,7 +479,7 @@ func c02Operands(c *core.Ctx) {
 			c.Add("states", 1)
 			op := name + "=" + val
 			for pi, prog := range parsed {
-				for _, args := range [][]string{{op, "data"}, {"data", op, "data"}, {op}, {"data", op}} {
+				for _, args := range [][]string{{op, "data"}, {"data", op, "data"}, {op}, {"data", op}, {op, "data2"}, {"data2", op, "data2"}} {
 					for _, cf := range []c02Config{{false, "default", false}, {true, "csv", false}} {
 						c02Exec(c, c02Case{Part: "e-operand", Src: progs[pi], Input: "s1 s2\ns3\n", Cfg: cf, Args: args}, prog)
 					}
